@@ -383,7 +383,8 @@ class SystemsWorld:
             "stubs": ["base-unit and root-unit memo tables wrapped in FlakyDict (forced misses)"],
             "assumptions": ["sampling, not enumeration",
                             "generated systems are well-formed: each rule replaces a different root unit with exponent +-1 in "
-                            "the new unit and no rule's new unit mentions a root unit replaced by another rule",
+                            "the new unit; in 15 % of the worlds one further system has two interacting rules (the new unit of one "
+                            "mentions a root unit the other replaces), where open finding R35 is recognised by its exact shape",
                             "after a failing multi-argument edit the model is re-synchronised from the public accessors "
                             "(non_inherited_unit_names, is_used_group); the statement 'nothing changed' is asserted only for "
                             "single-argument edits"],
